@@ -704,6 +704,46 @@ def main(out_path):
     L.append("  " + txt + ".")
     L.append("")
 
+    # --- which RequiredEntry kinds each path origin records (resolve_package_required_entries)
+    rre = fn_body(resolver, "resolve_package_required_entries")
+    m = re.search(r"for\s+origin\s+in\s+path\s*\{\s*match\s+origin\s*\{", rre)
+    if not m:
+        raise TranslateError("resolve_package_required_entries: `for origin in path { match origin {` not found")
+    ob = m.end() - 1
+    mbody = rre[ob + 1:match_brace(rre, ob)]
+    REQ_KIND = {"LocalAudit": "RK_LocalAudit", "Audit": "RK_Audit", "WildcardAudit": "RK_Wildcard", "Publisher": "RK_Publisher",
+                "Exemption": "RK_Exemption", "Unpublished": "RK_Unpublished", "FreshExemption": "RK_FreshExemption"}
+    rows = {}
+    pos = 0
+    for am in re.finditer(r"DeltaEdgeOrigin::(\w+)\s*\{[^}]*\}\s*=>\s*\{", mbody):
+        b0 = am.end() - 1
+        blk = mbody[b0 + 1:match_brace(mbody, b0)]
+        cond_spans = []
+        for cm in re.finditer(r"if\s+let\s+Some\(\s*import_index\s*\)\s*=\s*import_index\s*\{", blk):
+            c0 = cm.end() - 1
+            cond_spans.append((c0, match_brace(blk, c0)))
+        ents = []
+        for em in re.finditer(r"add_entry\(\s*RequiredEntry::(\w+)", blk):
+            if em.group(1) not in REQ_KIND:
+                raise TranslateError(f"unknown RequiredEntry::{em.group(1)}")
+            conditional = any(a <= em.start() <= b for a, b in cond_spans)
+            ents.append(f"({REQ_KIND[em.group(1)]}, {'true' if conditional else 'false'})")
+        if am.group(1) not in ORIGIN_KIND:
+            raise TranslateError(f"unknown DeltaEdgeOrigin::{am.group(1)} in resolve_package_required_entries")
+        rows[ORIGIN_KIND[am.group(1)]] = ents
+    missing = [k for k in ORIGIN_KIND.values() if k not in rows]
+    if missing:
+        raise TranslateError(f"resolve_package_required_entries: no arm for {missing}")
+    L.append("(* the RequiredEntry kinds recorded for each origin on a chosen path; the flag says `only when the wildcard")
+    L.append("   audit is an imported one` (if let Some(import_index)) *)")
+    L.append("Inductive rkind := RK_LocalAudit | RK_Audit | RK_Wildcard | RK_Publisher | RK_Exemption | RK_Unpublished | RK_FreshExemption.")
+    L.append("Definition required_kinds_src (k : okind) : list (rkind * bool) :=")
+    L.append("  match k with")
+    for k in ORIGIN_KIND.values():
+        L.append(f"  | {k} => [" + "; ".join(rows[k]) + "]")
+    L.append("  end.")
+    L.append("")
+
     # --- [policy] table keys (serialization.rs mod policy)
     ser = strip_comments(read("src/serialization.rs"))
     polmod = item_body(ser, r"\bpub\s+mod\s+policy\s*\{", "serialization::policy")
